@@ -1125,3 +1125,423 @@ Proof.
     + fold y. rewrite Hcfg. rewrite (overlay_lookup cfg _ _ Hnd). now rewrite (in_nodup_slookup cfg k v Hnd Hin).
   - intros t Ht. apply touches_false. now apply Hno.
 Qed.
+
+(* ================================================================== the model passes the checker *)
+Section FsMore.
+  Context {A : Type}.
+  Implicit Types (f g : fs A) (c : content A).
+
+  Lemma tail_states_none f new faults g :
+    read f Main = None -> read f Tmp = Some new ->
+    In g (exec f [ (Remove Bak, ok_or_enoent); (Link Main Bak, ok_or_enoent); (Rename Tmp Main, any_result) ] faults) ->
+    read g Main = None \/ read g Main = Some new.
+  Proof.
+    intros Hm Ht Hin.
+    rewrite exec_cons in Hin.
+    destruct (hd false faults); [cbn in Hin; contradiction|].
+    assert (H1m : read (fst (apply f (Remove Bak))) Main = None).
+    { cbn [apply]. destruct (read f Bak); cbn [fst]; [|exact Hm].
+      rewrite read_remove. cbn [name_eqb]. exact Hm. }
+    assert (H1t : read (fst (apply f (Remove Bak))) Tmp = Some new).
+    { cbn [apply]. destruct (read f Bak); cbn [fst]; [|exact Ht].
+      rewrite read_remove. cbn [name_eqb]. exact Ht. }
+    assert (Hc : ok_or_enoent (snd (apply f (Remove Bak))) = true).
+    { cbn [apply]. destruct (read f Bak); reflexivity. }
+    destruct (apply f (Remove Bak)) as [f1 r1]. cbn [fst snd] in *. rewrite Hc in Hin.
+    destruct Hin as [<- | Hin]; [now left|].
+    rewrite exec_cons in Hin.
+    destruct (hd false (tl faults)); [cbn in Hin; contradiction|].
+    cbn [apply] in Hin. rewrite H1m in Hin. cbn [ok_or_enoent] in Hin.
+    destruct Hin as [<- | Hin]; [now left|].
+    rewrite exec_cons in Hin.
+    destruct (hd false (tl (tl faults))).
+    { cbn [any_result exec] in Hin. destruct Hin as [<- | []]. now left. }
+    cbn [apply] in Hin. rewrite H1t in Hin. cbn [name_eqb any_result exec] in Hin.
+    destruct Hin as [<- | []]. right. rewrite read_set. now rewrite name_eqb_refl.
+  Qed.
+
+  Lemma save_trace_main_none f chunks faults g :
+    read f Main = None ->
+    In g (save_trace f chunks faults) ->
+    read g Main = None \/ read g Main = Some (concat chunks).
+  Proof.
+    intros Hm Hin. unfold save_trace in Hin.
+    destruct Hin as [<- | Hin]; [now left|].
+    unfold save_ops, write_config_as in Hin. cbn [app] in Hin. rewrite exec_cons in Hin.
+    destruct (hd false faults); [cbn in Hin; contradiction|].
+    cbn [apply is_ok] in Hin.
+    remember (set name_eqb Tmp [] f) as f1 eqn:Ef1.
+    assert (H1m : read f1 Main = None) by (rewrite Ef1, read_set; exact Hm).
+    assert (H1t : read f1 Tmp = Some []) by (rewrite Ef1, read_set; reflexivity).
+    destruct Hin as [<- | Hin]; [now left|].
+    destruct (appends_states chunks f1 (tl faults) [] _ g H1t Hin) as [H | (f2 & fl2 & Hm2 & Ht2 & Hin2)].
+    - left. congruence.
+    - cbn [app] in Ht2. rewrite H1m in Hm2.
+      exact (tail_states_none f2 (concat chunks) fl2 g Hm2 Ht2 Hin2).
+  Qed.
+
+  (* what start-up reads from the directory before a save *)
+  Definition old_of f : content A := match read f Main with Some c => c | None => [] end.
+
+  Lemma startup_old f : snd (startup f) = Some (old_of f).
+  Proof.
+    unfold old_of. destruct (read f Main) eqn:E.
+    - now rewrite (startup_reads _ _ E).
+    - now apply startup_creates.
+  Qed.
+
+  Lemma trace_reads f c faults g :
+    In g (save_trace f [c] faults) ->
+    snd (startup g) = Some (old_of f) \/ snd (startup g) = Some c.
+  Proof.
+    intro Hin. unfold old_of. destruct (read f Main) eqn:E.
+    - destruct (save_trace_main f _ [c] faults g E Hin) as [H | H]; rewrite (startup_reads _ _ H).
+      + now left.
+      + right. cbn [concat]. now rewrite app_nil_r.
+    - destruct (save_trace_main_none f [c] faults g E Hin) as [H | H].
+      + left. now apply startup_creates.
+      + right. rewrite (startup_reads _ _ H). cbn [concat]. now rewrite app_nil_r.
+  Qed.
+
+  Lemma exec_nofault (s : script A) : forall f faults,
+    forallb negb faults = true -> exec f s faults = exec f s [].
+  Proof.
+    induction s as [|[o cont] r IH]; intros f faults H; [reflexivity|].
+    rewrite !exec_cons.
+    assert (Hhd : hd false faults = false).
+    { destruct faults as [|b t]; [reflexivity|]. cbn in H. apply andb_true_iff in H as [H _].
+      now apply negb_true_iff in H. }
+    assert (Htl : forallb negb (tl faults) = true).
+    { destruct faults as [|b t]; [reflexivity|]. cbn in H. now apply andb_true_iff in H as [_ H]. }
+    rewrite Hhd. cbn [hd tl]. destruct (apply f o) as [f' r']. destruct (cont r'); [|reflexivity].
+    now rewrite (IH f' (tl faults) Htl).
+  Qed.
+
+  (* the first three states of a save: before, temporary file open, temporary file written *)
+  Lemma save_trace_shape f c faults :
+    let f1 := set name_eqb Tmp [] f in
+    let f2 := set name_eqb Tmp c f1 in
+    save_trace f [c] faults =
+    if hd false faults then [f]
+    else if hd false (tl faults) then [f; f1]
+         else f :: f1 :: f2 ::
+              exec f2 [ (Remove Bak, ok_or_enoent); (Link Main Bak, ok_or_enoent); (Rename Tmp Main, any_result) ]
+                   (tl (tl faults)).
+  Proof.
+    intros f1 f2. unfold save_trace, save_ops, write_config_as. cbn [map app].
+    rewrite exec_cons. destruct (hd false faults); [reflexivity|].
+    cbn [apply is_ok]. fold f1. rewrite exec_cons.
+    destruct (hd false (tl faults)); [reflexivity|].
+    cbn [apply]. assert (H : read f1 Tmp = Some []) by (subst f1; rewrite read_set; reflexivity).
+    rewrite H. cbn [is_ok app]. reflexivity.
+  Qed.
+End FsMore.
+
+(* ---- completeness of the boolean checkers ---- *)
+Lemma nodup_nodupb l : NoDup l -> nodupb l = true.
+Proof.
+  induction 1 as [|x r Hn Hr IH]; [reflexivity|]. cbn [nodupb]. rewrite IH, andb_true_r.
+  apply negb_true_iff. destruct (mem_str x r) eqn:E; [|reflexivity]. apply mem_str_in in E. contradiction.
+Qed.
+
+Lemma opt_str_eqb_refl a : opt_str_eqb a a = true.
+Proof. destruct a; [apply Z.eqb_refl | reflexivity]. Qed.
+
+Lemma updated_last_text t h : In t (updated_tags h) -> exists x, last_text t h = Some x.
+Proof.
+  induction h as [|a h IH] using rev_ind; [intros []|].
+  rewrite updated_tags_snoc, last_text_snoc. intro H. apply in_app_or in H.
+  destruct a as [tag o x| | | | |]; cbn [In] in H;
+    try (destruct H as [H | []]; now apply IH).
+  destruct (String.eqb tag t) eqn:E; [now exists x|].
+  destruct H as [H | [H | []]]; [now apply IH|]. subst. rewrite String.eqb_refl in E. discriminate.
+Qed.
+
+Lemma updated_last_obj t h : In t (updated_tags h) -> exists x, last_obj t h = Some x.
+Proof.
+  induction h as [|a h IH] using rev_ind; [intros []|].
+  rewrite updated_tags_snoc, last_obj_snoc. intro H. apply in_app_or in H.
+  destruct a as [tag o x| | | | |]; cbn [In] in H;
+    try (destruct H as [H | []]; now apply IH).
+  destruct (String.eqb tag t) eqn:E; [now exists o|].
+  destruct H as [H | [H | []]]; [now apply IH|]. subst. rewrite String.eqb_refl in E. discriminate.
+Qed.
+
+Lemma sendall_check_complete before l : sendall_spec before l -> sendall_check before l = true.
+Proof.
+  intros [Hnd Hiff]. unfold sendall_check. rewrite (nodup_nodupb _ Hnd). cbn [andb].
+  apply andb_true_iff. split; apply forallb_forall.
+  - intros [t b] Hin. cbn [fst snd]. destruct (proj1 (Hiff t b) Hin) as [Hs Hl].
+    rewrite Hs, Hl. apply opt_str_eqb_refl.
+  - intros t Ht. destruct (status_topic t) eqn:Hs; [|reflexivity]. cbn [negb orb].
+    destruct (updated_last_text t before Ht) as (b & Hb).
+    apply mem_str_in. apply in_map_iff. exists (t, b). split; [reflexivity|]. apply Hiff. auto.
+Qed.
+
+Lemma saved_check_complete before cfg : saved_spec before cfg -> saved_check before cfg = true.
+Proof.
+  intro H. unfold saved_check. apply forallb_forall. intros t Ht.
+  destruct (persistent_topic t) eqn:Hp; [|reflexivity]. cbn [negb orb].
+  destruct (updated_last_obj t before Ht) as (o & Ho). rewrite Ho, (H t o Hp Ho). apply Z.eqb_refl.
+Qed.
+
+Lemma kept_check_complete cfg0 before cfg : kept_spec cfg0 before cfg -> kept_check cfg0 before cfg = true.
+Proof.
+  intro H. unfold kept_check. apply forallb_forall. intros [k v] Hin. cbn [fst snd].
+  destruct (existsb (fun t => touches t k) (written_tags before)) eqn:E; [reflexivity|]. cbn [orb].
+  rewrite (H k v Hin); [apply Z.eqb_refl|].
+  intros t Ht. destruct (touches t k) eqn:Et; [|reflexivity].
+  assert (existsb (fun t => touches t k) (written_tags before) = true)
+    by (apply existsb_exists; exists t; auto). congruence.
+Qed.
+
+Lemma config_eqb_refl (c : config) : config_eqb c c = true.
+Proof. now apply config_eqb_eq. Qed.
+
+Lemma last_map {X Y} (F : X -> Y) (l : list X) d d' : l <> [] -> last (map F l) d' = F (last l d).
+Proof.
+  induction l as [|x r IH]; [congruence|]. intros _. destruct r as [|x' r']; [reflexivity|].
+  change (last (map F (x' :: r')) d' = F (last (x' :: r') d)). apply IH. discriminate.
+Qed.
+
+(* ---- a save with no failing operation ---- *)
+Lemma save_trace_nofault {A} (f : fs A) c faults :
+  forallb negb faults = true -> save_trace f [c] faults = save_trace f [c] [].
+Proof. intro H. unfold save_trace. now rewrite (exec_nofault _ f faults H). Qed.
+
+Lemma step_savetick_disk y now faults :
+  disk (fst (step y (SaveTick now faults))) =
+  last (save_trace (disk y) [all_settings (fst (save_state y now []))] faults) (disk y).
+Proof. reflexivity. Qed.
+
+Lemma savetick_result cfg d h now faults :
+  Forall wf_event h -> consistent h -> case_distinct h -> NoDup (keys cfg) ->
+  forallb negb faults = true ->
+  let y := fst (run (init_sys cfg d) h) in
+  let w := all_settings (fst (save_state y now [])) in
+  read (disk (fst (step y (SaveTick now faults)))) Main = Some w /\ saved_spec h w /\ kept_spec cfg h w.
+Proof.
+  intros Hwf Hcons Hdist Hnd Hnf y w.
+  destruct (saved_latest cfg d h now Hwf Hcons Hdist) as (s1 & Hst1 & Hspec & _).
+  destruct (saved_keeps cfg d h now Hwf Hcons Hdist Hnd) as (s2 & Hst2 & Hkept).
+  fold y in Hst1, Hst2.
+  assert (Hdisk : disk (fst (step y (SaveTick now faults))) = disk (fst (step y (SaveTick now [])))).
+  { rewrite !step_savetick_disk. f_equal. apply save_trace_nofault. exact Hnf. }
+  assert (Hmain : read (disk (fst (step y (SaveTick now [])))) Main = Some w).
+  { rewrite step_savetick_disk. exact (proj1 (save_completes (disk y) w)). }
+  rewrite Hdisk. split; [exact Hmain|].
+  rewrite (startup_reads _ _ Hmain) in Hst1, Hst2. cbn [snd] in Hst1, Hst2.
+  inversion Hst1; inversion Hst2; subst. auto.
+Qed.
+
+Lemma crash_check_intro reads (w old : config) :
+  hd_error reads = Some (Some old) ->
+  (forall r, In r reads -> r = Some old \/ r = Some w) ->
+  crash_check reads w = true.
+Proof.
+  intros Hhd Hall. destruct reads as [|r0 rest]; [discriminate|]. cbn in Hhd. inversion Hhd; subst r0.
+  unfold crash_check. apply forallb_forall. intros r Hr.
+  destruct (Hall r Hr) as [-> | ->]; [now rewrite config_eqb_refl | rewrite config_eqb_refl; apply orb_true_r].
+Qed.
+
+Lemma savetick_passes cfg d h now faults :
+  Forall wf_event h -> consistent h -> case_distinct h -> NoDup (keys cfg) ->
+  check_one cfg h (SaveTick now faults)
+            (snd (step (fst (run (init_sys cfg d) h)) (SaveTick now faults))) = true.
+Proof.
+  intros Hwf Hcons Hdist Hnd. set (y := fst (run (init_sys cfg d) h)).
+  set (w := all_settings (fst (save_state y now []))).
+  set (f := disk y).
+  change (check_one cfg h (SaveTick now faults)
+            (Saved (save_trace f [w : content entry] faults)
+                   (map (fun g => snd (startup g)) (save_trace f [w : content entry] faults))) = true).
+  cbn [check_one].
+  pose proof (save_trace_shape f w faults) as Hshape. cbn zeta in Hshape.
+  assert (Hreads : forall g, In g (save_trace f [w : content entry] faults) ->
+                             snd (startup g) = Some (old_of f) \/ snd (startup g) = Some w)
+    by (intros g Hg; now apply trace_reads with faults).
+  destruct (hd false faults) eqn:H0.
+  { (* the open of the temporary file failed *)
+    rewrite Hshape. cbn [written_of map]. rewrite startup_old.
+    assert (forallb negb faults = false) as ->.
+    { destruct faults as [|b t]; [discriminate|]. cbn in H0. subst b. reflexivity. }
+    cbn [negb andb forallb]. now rewrite config_eqb_refl. }
+  destruct (hd false (tl faults)) eqn:H1.
+  { (* its write failed *)
+    rewrite Hshape. cbn [written_of map]. rewrite !startup_old.
+    assert (forallb negb faults = false) as ->.
+    { destruct faults as [|b [|b' t]]; try discriminate. cbn in H0, H1. subst. reflexivity. }
+    assert (old_of (set name_eqb Tmp [] f) = old_of f) as -> by (unfold old_of; now rewrite read_set).
+    cbn [negb andb forallb]. now rewrite config_eqb_refl. }
+  (* the temporary file was written *)
+  assert (Hw : written_of (save_trace f [w : content entry] faults) = Some w).
+  { rewrite Hshape. cbn [written_of]. rewrite read_set. reflexivity. }
+  rewrite Hw. apply andb_true_iff. split.
+  - (* every state reads the old or the new configuration *)
+    apply crash_check_intro with (old := old_of f).
+    + unfold save_trace. cbn [map hd_error]. now rewrite startup_old.
+    + intros r Hr. apply in_map_iff in Hr as (g & <- & Hg). now apply Hreads.
+  - destruct (forallb negb faults) eqn:Hnf; [|reflexivity].
+    destruct (savetick_result cfg d h now faults Hwf Hcons Hdist Hnd Hnf) as (Hmain & Hspec & Hkept).
+    fold y in Hmain. fold w in Hmain, Hspec, Hkept.
+    rewrite (save_trace_nofault f w faults Hnf).
+    destruct (save_completes f w) as [Hlast Hlen].
+    unfold completed. rewrite Hlen, Hnf. cbn [Nat.eqb andb].
+    match goal with |- context [match ?X with Some _ => _ | None => false end] => assert (Hl : X = Some w) end.
+    { etransitivity; [apply last_map with (d := f); unfold save_trace; discriminate|].
+      now rewrite (startup_reads _ _ Hlast). }
+    rewrite Hl.
+    apply andb_true_iff. split; [now apply saved_check_complete | now apply kept_check_complete].
+Qed.
+
+(* ---- the restart ---- *)
+Lemma saved_is_current_snoc h e :
+  saved_is_current (h ++ [e]) =
+  match e with
+  | SaveTick _ faults => forallb negb faults
+  | Update t _ _ => if persistent_topic t then false else saved_is_current h
+  | _ => saved_is_current h
+  end.
+Proof. unfold saved_is_current. rewrite rev_unit. destruct e; reflexivity. Qed.
+
+Definition no_annotation (h : list event) : Prop :=
+  Forall (fun e => match e with InUse _ _ => False | _ => True end) h.
+
+Lemma in_use_nil h : no_annotation h -> in_use h [] = [].
+Proof.
+  induction 1 as [|e r He Hr IH]; [reflexivity|].
+  destruct e; cbn [in_use]; try exact IH. destruct He.
+Qed.
+
+(* when the save is current, the main file holds the latest value of every persistent topic *)
+Definition InvK (h : list event) (y : sys) : Prop :=
+  saved_is_current h = true -> exists c, read (disk y) Main = Some c /\ saved_spec h c.
+
+Lemma case_distinct_prefix h e : case_distinct (h ++ [e]) -> case_distinct h.
+Proof.
+  intros H t1 t2 H1 H2. apply H.
+  - rewrite updated_tags_snoc. apply in_app_or in H1. apply in_or_app.
+    destruct H1; [left; apply in_or_app; now left | now right].
+  - rewrite updated_tags_snoc. apply in_app_or in H2. apply in_or_app.
+    destruct H2; [left; apply in_or_app; now left | now right].
+Qed.
+
+Lemma invK_run cfg d h :
+  Forall wf_event h -> consistent h -> case_distinct h -> NoDup (keys cfg) ->
+  InvK h (fst (run (init_sys cfg d) h)).
+Proof.
+  induction h as [|e h IH] using rev_ind; intros Hwf Hcons Hdist Hnd.
+  - intro H. discriminate.
+  - apply Forall_app in Hwf as [Hh He].
+    pose proof (consistent_prefix _ _ Hcons) as Hc. pose proof (case_distinct_prefix _ _ Hdist) as Hd.
+    specialize (IH Hh Hc Hd Hnd). rewrite run_snoc.
+    set (y := fst (run (init_sys cfg d) h)) in *.
+    intro Hcur. rewrite saved_is_current_snoc in Hcur.
+    destruct e as [tag obj text | | | now faults | k0 v0 | ].
+    + destruct (persistent_topic tag) eqn:Hp; [discriminate|].
+      destruct (IH Hcur) as (c & Hc1 & Hc2). exists c. split.
+      * cbn [step]. destruct (String.eqb tag "NEWDASTARD"); [exact Hc1|].
+        destruct (text_of y tag =? text); exact Hc1.
+      * intros t o Hpt Hl. rewrite last_obj_snoc in Hl.
+        destruct (String.eqb tag t) eqn:E; [|now apply Hc2].
+        apply String.eqb_eq in E. subst. congruence.
+    + destruct (IH Hcur) as (c & Hc1 & Hc2). exists c. split; [exact Hc1|].
+      intros t o Hpt Hl. rewrite last_obj_snoc in Hl. now apply Hc2.
+    + destruct (IH Hcur) as (c & Hc1 & Hc2). exists c. split; [exact Hc1|].
+      intros t o Hpt Hl. rewrite last_obj_snoc in Hl. now apply Hc2.
+    + destruct (savetick_result cfg d h now faults Hh Hc Hd Hnd Hcur) as (Hmain & Hspec & _).
+      eexists. split; [exact Hmain|].
+      intros t o Hpt Hl. rewrite last_obj_snoc in Hl. now apply Hspec.
+    + destruct (IH Hcur) as (c & Hc1 & Hc2). exists c. split; [exact Hc1|].
+      intros t o Hpt Hl. rewrite last_obj_snoc in Hl. now apply Hc2.
+    + destruct (IH Hcur) as (c & Hc1 & Hc2). exists c. split; [exact Hc1|].
+      intros t o Hpt Hl. rewrite last_obj_snoc in Hl. now apply Hc2.
+Qed.
+
+Lemma restart_passes cfg d h :
+  Forall wf_event h -> consistent h -> case_distinct h -> NoDup (keys cfg) -> no_annotation h ->
+  check_one cfg h Restart (snd (step (fst (run (init_sys cfg d) h)) Restart)) = true.
+Proof.
+  intros Hwf Hcons Hdist Hnd Hna. pose proof (invK_run cfg d h Hwf Hcons Hdist Hnd) as HK.
+  set (y := fst (run (init_sys cfg d) h)) in *.
+  cbn [step snd check_one]. unfold restored_check.
+  destruct (saved_is_current h) eqn:Hcur; [|reflexivity]. cbn [negb orb].
+  rewrite (in_use_nil h Hna). cbn [forallb]. rewrite andb_true_r.
+  destruct (HK Hcur) as (c & Hc1 & Hc2). rewrite (startup_reads _ _ Hc1). cbn [snd].
+  apply forallb_forall. intros t Ht.
+  destruct (persistent_topic t) eqn:Hp; [|reflexivity].
+  destruct (restorable_topic t) eqn:Hr; [|reflexivity]. cbn [andb negb orb].
+  destruct (updated_last_obj t h Ht) as (o & Ho). rewrite Ho.
+  unfold restorable_topic in Hr.
+  assert (Hl : slookup (to_lower t) (filter (fun kv : string * value => mem_str (fst kv) restorable_keys) c) = Some o).
+  { etransitivity; [exact (slookup_filter (fun k => mem_str k restorable_keys) c (to_lower t) Hr)|].
+    now apply Hc2. }
+  rewrite Hl. apply Z.eqb_refl.
+Qed.
+
+(* ---- every event ---- *)
+Lemma step_passes cfg d h e :
+  Forall wf_event (h ++ [e]) -> consistent (h ++ [e]) -> case_distinct (h ++ [e]) ->
+  NoDup (keys cfg) -> no_annotation (h ++ [e]) ->
+  check_one cfg h e (snd (step (fst (run (init_sys cfg d) h)) e)) = true.
+Proof.
+  intros Hwf Hcons Hdist Hnd Hna.
+  apply Forall_app in Hwf as [Hh He]. apply Forall_app in Hna as [Hnah _].
+  pose proof (consistent_prefix _ _ Hcons) as Hc. pose proof (case_distinct_prefix _ _ Hdist) as Hd.
+  destruct e as [tag obj text | | | now faults | k0 v0 | ].
+  - cbn [step]. destruct (String.eqb tag "NEWDASTARD"); [reflexivity|].
+    destruct (text_of _ tag =? text); reflexivity.
+  - cbn [check_one]. apply sendall_check_complete.
+    apply (sendall_last_per_topic cfg d h _ Hh). reflexivity.
+  - cbn [step snd check_one]. unfold wait_check.
+    destruct (save_due h) eqn:Hdue; [|reflexivity]. cbn [negb orb]. now apply due_armed.
+  - now apply savetick_passes.
+  - reflexivity.
+  - now apply restart_passes.
+Qed.
+
+Lemma consistent_app_l a b : consistent (a ++ b) -> consistent a.
+Proof.
+  intros H t o1 x1 o2 x2 H1 H2 Hx.
+  apply (H t o1 x1 o2 x2); [apply in_or_app; now left | apply in_or_app; now left | exact Hx].
+Qed.
+
+Lemma updated_tags_app a b : updated_tags (a ++ b) = updated_tags a ++ updated_tags b.
+Proof.
+  induction a as [|e a IH]; [reflexivity|]. destruct e; cbn [app updated_tags]; rewrite IH; reflexivity.
+Qed.
+
+Lemma case_distinct_app_l a b : case_distinct (a ++ b) -> case_distinct a.
+Proof.
+  intros H t1 t2 H1 H2. apply H; rewrite updated_tags_app.
+  - apply in_app_or in H1. apply in_or_app. destruct H1; [left; apply in_or_app; now left | now right].
+  - apply in_app_or in H2. apply in_or_app. destruct H2; [left; apply in_or_app; now left | now right].
+Qed.
+
+Lemma run_passes cfg d rest : forall pre,
+  Forall wf_event (pre ++ rest) -> consistent (pre ++ rest) -> case_distinct (pre ++ rest) ->
+  NoDup (keys cfg) -> no_annotation (pre ++ rest) ->
+  check_from cfg pre (combine rest (snd (run (fst (run (init_sys cfg d) pre)) rest))) = true.
+Proof.
+  induction rest as [|e r IH]; intros pre Hwf Hcons Hdist Hnd Hna; [reflexivity|].
+  assert (Hsplit : pre ++ e :: r = (pre ++ [e]) ++ r) by (rewrite <- app_assoc; reflexivity).
+  rewrite Hsplit in Hwf, Hcons, Hdist, Hna.
+  cbn [run]. destruct (step (fst (run (init_sys cfg d) pre)) e) as [y1 o] eqn:Es.
+  destruct (run y1 r) as [y2 os] eqn:Er. cbn [snd combine check_from].
+  apply andb_true_iff. split.
+  - replace o with (snd (step (fst (run (init_sys cfg d) pre)) e)) by (now rewrite Es).
+    apply step_passes; auto.
+    + now apply Forall_app in Hwf as [H _].
+    + now apply consistent_app_l with r.
+    + now apply case_distinct_app_l with r.
+    + now apply Forall_app in Hna as [H _].
+  - specialize (IH (pre ++ [e]) Hwf Hcons Hdist Hnd Hna).
+    rewrite run_snoc, Es in IH. cbn [fst] in IH. rewrite Er in IH. exact IH.
+Qed.
+
+Lemma model_passes cfg d h :
+  Forall wf_event h -> consistent h -> case_distinct h -> NoDup (keys cfg) -> no_annotation h ->
+  C16_check cfg (combine h (snd (run (init_sys cfg d) h))) = true.
+Proof.
+  intros. unfold C16_check. exact (run_passes cfg d h [] H H0 H1 H2 H3).
+Qed.
